@@ -19,6 +19,7 @@ def start_texts(tier, kind):
         texts += X.uniform(5 if tier == "quick" else 5)
         texts += X.termsums(3, X.TERMS_Q)
         texts += X.flat_chains(3, ["2", "-3", "x", "2x", "x^2", "4x^2", "y"], ("+", "-", "*"))
+        texts += X.same_op_groupings(4)
         if tier == "thorough":
             texts += X.uniform_exact(7, X.LEAVES_SMALL)
             texts += X.termsums(3, X.TERMS_T)
@@ -49,6 +50,7 @@ class Visitor:
 
 def explore_text(acc, visitor, text, depth, want_root):
     """BFS to `depth` from parse(text).  ctx = {'text', 'trace'} identifies each state."""
+    RW.reset_configs()  # rule-object state may depend only on this seed's history
     try:
         root = RW.parse(text)
     except Exception:  # noqa - unparsable start texts are C03/C10's business
@@ -97,6 +99,81 @@ def explore_text(acc, visitor, text, depth, want_root):
                         queue.append((nroot, ns, trace + [[cname, index]]))
 
 
+def explore_inplace(acc, visitor, text, want_root):
+    """Depth-2 exploration in IN-PLACE mode: rules are applied to the live tree (as the repository's own
+    run_rule_tests does), not to a clone.  For every first transition t1 and every second transition t2
+    applicable afterwards, the state is rebuilt (fresh parse, scan, t1 in place, scan) and t2 is applied in
+    place to the very node objects the first rewrite left behind.  Depth-1 in-place steps are judged too."""
+    def rebuild(trace):
+        RW.reset_configs()
+        root = RW.parse(text)
+        for cname, index in trace:
+            RW.scan(root)
+            node = RW.inorder(root)[index]
+            root = RW.get_root(RW.config(cname).apply_to(node).result)
+        return root
+
+    try:
+        root = rebuild([])
+    except Exception:  # noqa
+        return
+    s0 = SG.sig(root)
+    is_eq = s0[0] == "="
+    if (want_root == "expr" and is_eq) or (want_root == "eqn" and not is_eq):
+        return
+
+    def applicable(r):
+        out = []
+        nodes = RW.inorder(r)
+        for cname, rule in RW.configs():
+            for index, node in enumerate(nodes):
+                try:
+                    if rule.can_apply_to(node):
+                        out.append((cname, index))
+                except Exception:  # noqa
+                    pass
+        return out
+
+    for t1 in applicable(root):
+        for depth2 in (False, True):
+            if not depth2:
+                todo = [[list(t1)]]
+            else:
+                try:
+                    mid = rebuild([t1])
+                except Exception:  # noqa
+                    break
+                if SG.arity_problems(SG.sig(mid)):
+                    break
+                todo = [[list(t1), list(t2)] for t2 in applicable(mid)]
+            for trace in todo:
+                try:
+                    cur = rebuild(trace[:-1])
+                except Exception:  # noqa
+                    continue
+                RW.scan(cur)
+                s = SG.sig(cur)
+                cname, index = trace[-1]
+                rule = RW.config(cname)
+                nodes = RW.inorder(cur)
+                if index >= len(nodes):
+                    continue
+                node = nodes[index]
+                nb_node = node  # neighbourhood is read before the rewrite
+                ctx = {"text": text, "trace": [list(x) for x in trace[:-1]], "inplace": True}
+                acc.count("transitions")
+                acc.count("inplace_transitions")
+                acc.count("applied:" + cname)
+                before_nb = RW.neighbourhood(nb_node)
+                result = change = error = None
+                try:
+                    change = rule.apply_to(node)
+                    result = change.result
+                except Exception as e:  # noqa
+                    error = e
+                visitor.on_transition(acc, dict(ctx, nb=before_nb), None, s, cname, rule, index, node, result, change, error)
+
+
 _TASK = {}
 
 
@@ -106,14 +183,17 @@ def _work(task):
     acc = Acc()
     visitor = vis_factory()
     for i in range(lo, hi):
-        explore_text(acc, visitor, texts[i], depth, want_root)
+        if depth == "inplace":
+            explore_inplace(acc, visitor, texts[i], want_root)
+        else:
+            explore_text(acc, visitor, texts[i], depth, want_root)
     return acc
 
 
-def run(vis_factory, texts, depth, want_root, seed, heavy_first=0):
+def run(vis_factory, texts, depth, want_root, seed, heavy_first=0, key="texts"):
     """heavy_first: the first N texts are expensive (many variables): one small task each."""
     texts = list(dict.fromkeys(texts))
-    _TASK["texts"] = texts
+    _TASK[key] = texts
     n = len(texts)
     parts = [(i, min(i + 8, heavy_first)) for i in range(0, heavy_first, 8)]
     size = 400
@@ -121,7 +201,7 @@ def run(vis_factory, texts, depth, want_root, seed, heavy_first=0):
     k = seed % max(1, len(rest))
     rest = rest[k:] + rest[:k]
     # long tasks first, deterministic order of results
-    tasks = [(vis_factory, "texts", lo, hi, depth, want_root) for lo, hi in parts + rest[::-1]]
+    tasks = [(vis_factory, key, lo, hi, depth, want_root) for lo, hi in parts + rest[::-1]]
     accs = par.pmap(_work, tasks)
     acc = merge_all(accs)
     acc.n["start_texts"] = n
@@ -129,17 +209,52 @@ def run(vis_factory, texts, depth, want_root, seed, heavy_first=0):
 
 
 def replay_last(case):
-    """Re-run a recorded trace; returns (before_root, s, cname, rule, index, node, result, change, error)."""
+    """Re-run a recorded trace (fresh rule objects, every state scanned as during exploration);
+    returns (before_root, s, cname, rule, index, node, result, change, error, neighbourhood)."""
     text, trace = case["text"], case["trace"]
-    roots = RW.run_trace(text, trace)
+    inplace = bool(case.get("inplace"))
+    roots = RW.run_trace(text, trace, inplace=inplace)
     cur = roots[-1]
     cname, index = case["cfg"], case["index"]
     rule = RW.config(cname)
     nodes = RW.inorder(cur)
     node = nodes[index]
+    s = SG.sig(cur)
+    nb = RW.neighbourhood(node)
     result = change = error = None
     try:
-        result, change = RW.step(cur, rule, index)
+        if inplace:
+            change = rule.apply_to(node)
+            result = change.result
+        else:
+            result, change = RW.step(cur, rule, index)
     except Exception as e:  # noqa
         error = e
-    return cur, SG.sig(cur), cname, rule, index, node, result, change, error
+    return cur, s, cname, rule, index, node, result, change, error, nb
+
+
+def small_texts(kind):
+    """reduced start set for the depth-2 / in-place closures of the quick tier"""
+    if kind == "expr":
+        t = [x for x in X.repo_inputs(REPO) if "=" not in x and len(x) <= 30]
+        t += X.uniform(3)
+        t += X.termsums(2, X.TERMS_Q)
+        t += X.termsums(3, ["2", "-3", "x", "4x", "x^2", "y"], ["+", "*", "-"])
+        t += X.flat_chains(3, ["2", "x", "3x", "x^2", "y", "-3"], ("+", "*"))
+        return t
+    t = [x for x in X.repo_inputs(REPO) if "=" in x and len(x) <= 30]
+    t += X.equations(["2", "-3", "x", "2x", "x^2", "3y"], ("+", "-", "*"))
+    return t
+
+
+def reexplore(case, vis_factory):
+    """Faithful replay of a violation that depends on state kept in rule objects: re-run the exploration of
+    the recorded seed text from fresh rule objects, exactly as the explorer did (same scans, same order),
+    and return every violation core it yields.  Deterministic: rule objects are reset per seed."""
+    acc = Acc()
+    visitor = vis_factory()
+    if case.get("inplace"):
+        explore_inplace(acc, visitor, case["text"], "any")
+    else:
+        explore_text(acc, visitor, case["text"], len(case.get("trace", [])) + 1, "any")
+    return [(core, ent["examples"][0]["detail"]) for core, ent in acc.viol.items()]
